@@ -326,7 +326,10 @@ impl Acc {
     }
     pub fn violate(&mut self, v: Violation) {
         self.violation_count += 1;
-        if self.violations.len() < VIOLATION_KEEP {
+        // keep some of EVERY kind (a flood of one kind must not push out the only counter-example of
+        // another kind, e.g. the replayable one of a later stage)
+        let same = self.violations.iter().filter(|x| x.prop == v.prop && x.kind == v.kind).count();
+        if (self.violations.len() < VIOLATION_KEEP && same < 60) || same < 12 {
             self.violations.push(v);
         }
     }
@@ -349,7 +352,8 @@ impl Acc {
         }
         self.violation_count += o.violation_count;
         for v in o.violations {
-            if self.violations.len() < VIOLATION_KEEP * 4 {
+            let same = self.violations.iter().filter(|x| x.prop == v.prop && x.kind == v.kind).count();
+            if (self.violations.len() < VIOLATION_KEEP * 4 && same < 240) || same < 24 {
                 self.violations.push(v);
             }
         }
@@ -506,11 +510,20 @@ pub fn finish(
     if !new_violations.is_empty() {
         let _ = std::fs::create_dir_all(format!("{root}/replays"));
         // group by kind, keep the first (shortest) of each kind, at most 12 files
-        let mut seen_kinds = HashSet::new();
+        // per kind: the first (shortest) case that reproduces is reported; a case that does not
+        // reproduce in isolation (its failure depended on what the worker thread had done before)
+        // makes way for the next candidate of its kind, up to six
+        let mut seen_kinds: HashSet<String> = HashSet::new();
+        let mut tried: std::collections::HashMap<String, usize> = std::collections::HashMap::new();
         for v in &new_violations {
-            if !seen_kinds.insert(v.kind.clone()) || replay_paths.len() >= 12 {
+            if seen_kinds.contains(&v.kind) || replay_paths.len() >= 12 {
                 continue;
             }
+            let t = tried.entry(v.kind.clone()).or_insert(0);
+            if *t >= 6 {
+                continue;
+            }
+            *t += 1;
             // re-execute from the recorded case: twice, and both runs must agree. If they do not (or
             // the violation does not show), the one nondeterminism the library has - the seeding of the
             // hash map inside Checksum - may be involved: retry, and report the violation if it shows
@@ -554,6 +567,7 @@ pub fn finish(
             });
             std::fs::write(&path, serde_json::to_string_pretty(&body).unwrap()).expect("cannot write replay");
             replay_paths.push(path);
+            seen_kinds.insert(v.kind.clone());
         }
     }
     for (id, (what, n)) in &known_hits {
